@@ -81,6 +81,10 @@ def request_mix() -> typing.List[typing.Tuple[str, bytes, typing.Optional[bytes]
         mix.append((v, b"/nope", None))
         mix.append((v, b"/packed.txt.gz", None))
     mix.append(("http", b"/PYGOPHERD-HTTPPROTO-ICONS/text.gif", None))
+    # requests that are answered without a body (the handler is prepared, its content never asked for)
+    for v in ("httphead", "waphead"):
+        for sel in (b"/hot", b"/", b"/gm", b"/arch.zip", b"/arch.zip/many", b"/small.txt", b"/mail.mbox", b"/nope", b"/hot/sub"):
+            mix.append((v, sel, None))
     # different large documents and different messages of one mailbox, in flight together
     for k in range(4):
         for v in ("gopher", "http", "gopherp+", "spartan"):
@@ -355,6 +359,22 @@ def run_round(chk: Check, sc: Scratch, rd: int, servertype: str, nreq: int, yiel
                              "want": want[max(0, n - 40):n + 120], "got_len": len(got), "want_len": len(want),
                              "server_stderr": sp.stderr_text()[-700:], "server_log_tail": sp.stdout_text()[-500:]})
                 return
+        # requests that timed out while the server was busy are no verdict.  Asked again now that every other client has
+        # gone and the server has nothing else to do, the same request must be answered -- if a plain document still is
+        timed_out = sorted({j for j, (d, e) in zip(jobs, results) if e is not None and e.startswith("timeout")}, key=repr)
+        if timed_out:
+            ctl, cerr = fetch(sp, "gopher", b"/small.txt", None)
+            for j in timed_out[:6]:
+                data, err = fetch(sp, *j, vary_client=False)
+                chk.count("timed_out_requests_asked_again_on_the_idle_server")
+                if err is not None and err.startswith("timeout") and ctl == b"small\n":
+                    chk.witness("C14/%s:request-unanswered-on-an-idle-server" % servertype,
+                                {"round": rd, "view": j[0], "selector": j[1], "waited_s": 30, "control_document_answered": True,
+                                 "why": "no other client is connected; an earlier client's request left something behind",
+                                 "server_stderr": sp.stderr_text()[-500:]})
+                    return
+                if err is None and validate.normalize_ts(data) == reference[j]:
+                    client_errors -= sum(1 for jj, (d, e) in zip(jobs, results) if jj == j and e is not None and e.startswith("timeout"))
         if client_errors > nreq // 10:
             chk.note_inconclusive("round %d: %d of %d requests failed on the client side" % (rd, client_errors, nreq))
         # liveness, reaping, descriptors, stderr
